@@ -24,7 +24,7 @@ TEXTS = {
  "C02": {
   "level": "Decides for every combination of (asset delivered) x (asset named) x (amount named) x (funds) at once: on the cw20 hook path the swap handler is reachable only "
            "through the pass-edges of amount == cw20 amount, caller-is-a-pool-token and named-asset == Token{caller}; the direct path only for a native offer; the native-funds "
-           "check precedes pricing; exactly one payout is built, with asset = a pool's info, amount = component .0 of the pricing result, recipient = to or the trader, "
+           "check precedes pricing; exactly one payout is built (skipped only for an empty return), with asset = a pool's info, amount = component .0 of the pricing result, recipient = to or the trader, "
            "and the reported attributes flow from the same values; the trader/recipient arguments originate from info.sender / the cw20 envelope / the message's `to` only. "
            "Supporting lemmas on AssetInfo::equal, is_native_token and the transfer constructor are re-derived from their MIR on every run.",
   "note": BASE_NOTE + " That the cw20 contract really moved `amount` before calling the hook is cw20-base semantics.",
